@@ -20,7 +20,7 @@ func init() { checks["C16"] = c16 }
 func c16(args []string) {
 	c := chk.New("C16", "exploration", args)
 	c.Build(false)
-	c.Rule("generated graphs (<= 9 processes, file and parameter edges, ParamSource / ParamCombinator processes, independent branches): (1) every single in-port or parameter in-port left unconnected in turn (file in-ports also connected and then taken off again through the public Disconnect) -> Run must refuse before any command (exit != 0, empty command trace), while unconsumed out-ports are drained automatically (base run succeeds); (2) RunTo on every target set of size <= 2 plus random larger ones, addressed by name, by regex and by process value -> the set of processes with executed commands equals the reference's upstream closure over file and parameter connections, every task of it exactly once, files equal the closure's reference, no command of any other process; a target that depends on six staggered upstream tasks through FileGlobberDependent; bundled components: the in-ports of MapToTags, FileSplitter, Concatenator, StreamToSubStream and the dependency port of FileGlobberDependent left unconnected must be refused too, and CommandToParams (whose command writes a marker file) must not run its command when it is outside the closure or the workflow is refused. distinct_nontrivial = distinct (graph shape, omitted port) refusals in graphs where some other process could have executed + distinct (graph shape, target set, addressing mode) with a proper closure (neither empty nor everything)")
+	c.Rule("generated graphs (<= 9 processes, file and parameter edges, ParamSource / ParamCombinator processes, independent branches): (1) every single in-port or parameter in-port left unconnected in turn (file in-ports also connected and then taken off again through the public Disconnect) -> Run must refuse before any command (exit != 0, empty command trace), while unconsumed out-ports are drained automatically (base run succeeds); (2) RunTo on every target set of size <= 2 plus random larger ones, addressed by name, by regex and by process value -> the set of processes with executed commands equals the reference's upstream closure over file and parameter connections, every task of it exactly once, files equal the closure's reference, no command of any other process; an out-port-less target behind a ParamCombinator one port of which lost its consumer (values > buffer); a target that depends on six staggered upstream tasks through FileGlobberDependent; bundled components: the in-ports of MapToTags, FileSplitter, Concatenator, StreamToSubStream and the dependency port of FileGlobberDependent left unconnected must be refused too, and CommandToParams (whose command writes a marker file) must not run its command when it is outside the closure or the workflow is refused. distinct_nontrivial = distinct (graph shape, omitted port) refusals in graphs where some other process could have executed + distinct (graph shape, target set, addressing mode) with a proper closure (neither empty nor everything)")
 	c.Assume("unconnected ports in processes outside a RunTo closure are not judged (the property states the wiring check for Run)")
 	rng := c.Rand("c16")
 	type job struct {
@@ -299,6 +299,21 @@ func c16(args []string) {
 			s2.Run = spec.Run{Mode: []string{"runto", "runtoregex", "runtoprocs"}[rep%3], Targets: []string{[]string{"gatherer", "^gatherer$", "gatherer"}[rep%3]}}
 			jobs = append(jobs, &job{s: s2, exp: evalRef(s2, nil), cfg: Cfg{Buf: 3, Procs: 2, SoftSec: 8}, kind: "runto", what: s2.Run.Mode + " gatherer (feeders that are ancestors of feeders)"})
 		}
+	}
+	// the target has no out-ports (it becomes the driver) and gets its parameters from a ParamCombinator, one port of
+	// which only feeds an excluded process: those values - more than the buffer holds - have to be drained although no
+	// file port needs the sink
+	for rep := 0; rep < c.Pick(3, 9); rep++ {
+		s := &spec.Spec{Name: "paramdrain", MaxTasks: 4, Sources: map[string]string{}}
+		s.Procs = append(s.Procs, &spec.Proc{Name: "letters", Kind: spec.KParamSource, Values: []string{"a", "b", "c"}}, &spec.Proc{Name: "numbers", Kind: spec.KParamSource, Values: []string{"1", "2", "3"}},
+			&spec.Proc{Name: "flag", Kind: spec.KParamSource, Values: []string{"x"}},
+			&spec.Proc{Name: "pc", Kind: spec.KParamComb, Ports: []string{"u", "v", "w"}},
+			&spec.Proc{Name: "logger", Kind: []string{spec.KCmd, spec.KGoFunc}[rep%2], Cmd: spec.BuildCmd("logger", nil, nil, []string{"u", "v"}, nil, nil)},
+			&spec.Proc{Name: "other", Kind: spec.KCmd, Cmd: spec.BuildCmd("other", nil, []spec.PortDecl{{Name: "out"}}, []string{"w"}, nil, nil), Outs: []*spec.Out{{Port: "out", Pattern: "other_{p:w}.out"}}})
+		s.Conns = append(s.Conns, &spec.Conn{From: "letters.out", To: "pc.u", Param: true}, &spec.Conn{From: "numbers.out", To: "pc.v", Param: true}, &spec.Conn{From: "flag.out", To: "pc.w", Param: true},
+			&spec.Conn{From: "pc.u", To: "logger.u", Param: true}, &spec.Conn{From: "pc.v", To: "logger.v", Param: true}, &spec.Conn{From: "pc.w", To: "other.w", Param: true})
+		s.Run = spec.Run{Mode: []string{"runto", "runtoprocs", "runtoregex"}[rep%3], Targets: []string{[]string{"logger", "logger", "^logger$"}[rep%3]}}
+		jobs = append(jobs, &job{s: s, exp: evalRef(s, nil), cfg: Cfg{Buf: []int{2, 1, 3}[rep%3], Procs: 2, SoftSec: 8}, kind: "runto", what: s.Run.Mode + " logger (out-port-less target behind a ParamCombinator with a cut port)"})
 	}
 	// the target depends on its upstream through a dependent globber: every task in front of the globber belongs to the
 	// closure (6 staggered tasks), the process behind the target does not
